@@ -1497,9 +1497,9 @@ def r084_specifier_state(P, u, rep):
             cuts[name] = mk_writer(name, sorted(positions))
         it = IterInterp(P, u, {'opaque': opaque, 'cut': cuts, 'loop_limit': 1, 'forever_limit': 2, 'track_stores': True})
         it.deep = frozenset(deep)
-        it.set_budget(8)
+        it.set_budget(60)
         try:
-            paths = it.explore(fname, generic_args(u, fname), max_paths=3000)
+            paths = it.explore(fname, generic_args(u, fname), max_paths=30000)
         except AnalysisBroken as ex:
             rep.undecided('R08.4', key, 'declaration loop of %s() not interpretable: %s' % (fname, ex), where=where)
             continue
